@@ -401,7 +401,8 @@ pub fn lifecycle(r: &mut Recorded, pre: &[crate::prog::Res], repeat: usize, disp
         ctx.cell(*res).insert(&mut world, 5000 + *res);
     }
     let mut evs: Vec<Value> = Vec::new();
-    for round in 0..repeat.max(1) {
+    // (repeat = 0: the dispatcher is disposed without ever having been set up - every system gets its hook all the same)
+    for round in 0..repeat {
         evs.push(world_event("presetup", &ctx, &world));
         ctx.ev(json!({"ev":"setupcall","d":r.top,"phase":"begin"}));
         let res = crate::unwind::ctx(|| catch_unwind(AssertUnwindSafe(|| r.dispatcher.as_mut().unwrap().setup(&mut world))));
